@@ -4,7 +4,7 @@
 
   stdin (judge): any number of transcripts, each
       == <name>
-      codec kind=int|g711|flt|dbl w=<n> fw=<n> noff=<n> scale=<decimal> trunc=0|1 ch=<n> [normF=0|1 normD=0|1 variant=sse2|lrint]
+      codec kind=int|g711|flt|dbl w=<n> fw=<n> noff=<n> scale=<decimal> trunc=0|1 [woff=<n>] ch=<n> [normF=0|1 normD=0|1 variant=sse2|lrint]
       twin narrow | widen | float <f32|f64>   (starts a (W) record; then its four lines)
       xs <hex items>      narrow: the caller's ints (8 digits);  widen: the ints;  float: the floats / doubles (8 / 16 digits)
       ys <hex items>      narrow: the shorts (4 digits);         widen: the shorts; float: the int twins (8 digits)
@@ -33,7 +33,7 @@ def kindOf (s : String) : Kind :=
 
 def codecOf (toks : List String) : Codec :=
   { kind := kindOf ((kvGet toks "kind").getD "int"), w := kvNat toks "w" 16, fw := kvNat toks "fw" 16, noff := kvNat toks "noff" 16,
-    scale := (kvNat toks "scale" 0x7FFF : Nat), trunc := kvBool toks "trunc" false, ch := kvNat toks "ch" 1 }
+    scale := (kvNat toks "scale" 0x7FFF : Nat), trunc := kvBool toks "trunc" false, woff := kvNat toks "woff" 0, ch := kvNat toks "ch" 1 }
 
 def digits (ty : Ty) : Nat := ty.bits / 4
 
